@@ -163,9 +163,48 @@ fn scenario(kind: u8, with_ref: bool, extra: u8, fee_mode: u8) -> Result<bool, S
     Ok(true)
 }
 
+/// explicitly declared reference scripts, also on an outpoint that is spent by the same transaction (with and without the
+/// de-duplication option): the ledger prices the scripts on spent AND referenced outputs, each outpoint once
+fn ref_inputs_scenario(dedup: bool, same: bool, both: bool, size: usize) -> Result<bool, String> {
+    let tag = format!("declared reference script: dedup {} on the spent outpoint {} plus another {} size {}", dedup, same, both, size);
+    let cfg = TransactionBuilderConfigBuilder::new()
+        .fee_algo(&LinearFee::new(&bn(44), &bn(155381))).pool_deposit(&bn(500_000_000)).key_deposit(&bn(2_000_000))
+        .max_value_size(5000).max_tx_size(16384).coins_per_utxo_byte(&bn(4310))
+        .ref_script_coins_per_byte(&UnitInterval::new(&bn(15), &bn(1)))
+        .deduplicate_explicit_ref_inputs_with_regular_inputs(dedup)
+        .build().map_err(|_| "config".to_string())?;
+    let mut tb = TransactionBuilder::new(&cfg);
+    let spent = TransactionInput::new(&TransactionHash::from([3u8; 32]), 1);
+    let other = TransactionInput::new(&TransactionHash::from([6u8; 32]), 0);
+    let mut ib = TxInputsBuilder::new();
+    ib.add_regular_input(&addr(1, 1), &spent, &Value::new(&bn(3_000_000_000))).map_err(|_| format!("{}: add_regular_input failed", tag))?;
+    tb.set_inputs(&ib);
+    let mut total = 0usize;
+    if same { tb.add_script_reference_input(&spent, size); total += size; }
+    if both { tb.add_script_reference_input(&other, size + 100); total += size + 100; }
+    tb.add_output(&TransactionOutput::new(&addr(0, 50), &Value::new(&bn(10_000_000)))).map_err(|_| format!("{}: add_output failed", tag))?;
+    if tb.add_change_if_needed(&addr(1, 60)).is_err() { return Ok(false); }
+    let tx = match tb.build_tx() { Ok(t) => t, Err(_) => return Ok(false) };
+    let fee = u64::from(tx.body().fee());
+    let mut ws = tx.witness_set();
+    let mut vk = Vkeywitnesses::new();
+    vk.add(&Vkeywitness::new(&Vkey::new(&pubkey(1)), &sig()));
+    ws.set_vkeys(&vk);
+    let signed = Transaction::new(&tx.body(), &ws, tx.auxiliary_data());
+    let lin = u64::from(min_fee(&signed, &LinearFee::new(&bn(44), &bn(155381))).map_err(|_| "min_fee failed".to_string())?);
+    let refs = u64::from(min_ref_script_fee(total, &UnitInterval::new(&bn(15), &bn(1))).map_err(|_| "ref fee failed".to_string())?);
+    if (fee as u128) < lin as u128 + refs as u128 {
+        return Err(format!("{}: fee {} is below the ledger minimum {} (linear {} + reference scripts {} for {} bytes)", tag, fee, lin + refs, lin, refs, total));
+    }
+    Ok(true)
+}
+
 pub fn builder_battery<S: Src>(_s: &mut S) {
     let mut failures = Vec::new();
     let mut released = 0;
+    for dedup in [false, true] { for same in [false, true] { for both in [false, true] { for size in [1usize, 3000, 30_000] {
+        match ref_inputs_scenario(dedup, same, both, size) { Ok(true) => released += 1, Ok(false) => (), Err(e) => failures.push(e) }
+    } } } }
     for kind in 0..4u8 {
         for with_ref in [false, true] {
             for extra in 0..7u8 {
@@ -175,8 +214,8 @@ pub fn builder_battery<S: Src>(_s: &mut S) {
             }
         }
     }
-    assert!(failures.is_empty(), "{} of 112 builder scenarios violate the property; first: {}", failures.len(), failures[0]);
-    if std::env::var("VERIF_BATTERY_VERBOSE").is_ok() { eprintln!("battery: {} of 112 scenarios released a transaction", released); }
+    assert!(failures.is_empty(), "{} of 136 builder scenarios violate the property; first: {}", failures.len(), failures[0]);
+    if std::env::var("VERIF_BATTERY_VERBOSE").is_ok() { eprintln!("battery: {} of 136 scenarios released a transaction", released); }
 }
 
 // ---------------------------------------------------------------- C09 / C16: script data hash vs emitted witness set
@@ -219,6 +258,37 @@ fn c09_scenario(extra: u8) -> Result<(), String> {
     }
     Ok(())
 }
+/// C18, size half: the size the builder predicts (full_size) covers the transaction as it is really signed — built
+/// transaction plus one key witness per required key — for Plutus spends with 0..2 extra witness datums
+fn c18_size_scenario(extra: u8) -> Result<(), String> {
+    let tag = format!("predicted size, plutus spend with inline witness datum, extra datums variant {}", extra);
+    let mut tb = TransactionBuilder::new(&config(true));
+    let script = PlutusScript::new(vec![1u8, 2, 3, 4, 5]);
+    let datum = PlutusData::from_bytes(vec![0x82, 0x01, 0x02]).unwrap();
+    let redeemer = Redeemer::new(&RedeemerTag::new_spend(), &bn(0), &PlutusData::new_bytes(vec![9]), &ExUnits::new(&bn(10), &bn(20)));
+    let mut ib = TxInputsBuilder::new();
+    ib.add_plutus_script_input(&PlutusWitness::new(&script, &datum, &redeemer), &TransactionInput::new(&TransactionHash::from([6u8; 32]), 0), &Value::new(&bn(100_000_000)));
+    ib.add_key_input(&kh(1), &TransactionInput::new(&TransactionHash::from([7u8; 32]), 0), &Value::new(&bn(100_000_000)));
+    tb.set_inputs(&ib);
+    match extra {
+        1 => tb.add_extra_witness_datum(&PlutusData::new_bytes(vec![7; 60])),
+        2 => { tb.add_extra_witness_datum(&PlutusData::new_bytes(vec![7; 60])); tb.add_extra_witness_datum(&PlutusData::new_bytes(vec![8; 40])); }
+        _ => (),
+    }
+    tb.add_output(&TransactionOutput::new(&addr(0, 50), &Value::new(&bn(10_000_000)))).map_err(|_| format!("{}: add_output failed", tag))?;
+    tb.set_fee(&bn(2_000_000));
+    let predicted = tb.full_size().map_err(|_| format!("{}: full_size failed", tag))?;
+    let tx = tb.build_tx_unsafe().map_err(|_| format!("{}: build failed", tag))?;
+    let mut ws = tx.witness_set();
+    let mut vk = Vkeywitnesses::new();
+    vk.add(&Vkeywitness::new(&Vkey::new(&pubkey(1)), &sig()));
+    ws.set_vkeys(&vk);
+    let signed = Transaction::new(&tx.body(), &ws, tx.auxiliary_data()).to_bytes().len();
+    if predicted < signed { return Err(format!("{}: predicted size {} is below the size of the signed transaction {}", tag, predicted, signed)); }
+    if predicted > signed + 110 { return Err(format!("{}: predicted size {} exceeds the signed size {} by more than one key witness", tag, predicted, signed)); }
+    Ok(())
+}
+
 fn tb_witness_set(tb: &TransactionBuilder) -> Result<TransactionWitnessSet, String> {
     let mut b = tb.clone();
     b.set_fee(&bn(1_000_000));
@@ -233,6 +303,7 @@ fn tb_script_data_hash(tb: &TransactionBuilder) -> Result<ScriptDataHash, String
 pub fn c09_battery<S: Src>(_s: &mut S) {
     let mut failures = Vec::new();
     for extra in 0..6u8 { if let Err(e) = c09_scenario(extra) { failures.push(e); } }
+    for extra in 0..3u8 { if let Err(e) = c18_size_scenario(extra) { failures.push(e); } }
     assert!(failures.is_empty(), "{} of 6 script-data-hash scenarios violate the property; first: {}", failures.len(), failures[0]);
 }
 
@@ -371,12 +442,49 @@ fn c10_withdrawals(order: &[usize], script_hash_byte: u8) -> Result<(), String> 
     Ok(())
 }
 
+/// the same outpoint added first as a Plutus-script input and then again as a key input (or the other way round, or
+/// twice with different redeemers): every spending redeemer of the built transaction must point at an input that is
+/// script-locked in the final builder state, and there is exactly one per script-locked input
+fn c10_readd(variant: u8) -> Result<(), String> {
+    let tag = format!("re-added input scenario {}", variant);
+    let mut tb = TransactionBuilder::new(&config(true));
+    let mut ib = TxInputsBuilder::new();
+    let pscript = PlutusScript::new(vec![9u8, 9, 8, variant]);
+    let h = |b: u8| TransactionInput::new(&TransactionHash::from([b; 32]), 0);
+    let pw = |m: u8| PlutusWitness::new(&pscript, &PlutusData::new_bytes(vec![1]), &redeemer_with_marker(&RedeemerTag::new_spend(), m));
+    let v = Value::new(&bn(500_000_000));
+    ib.add_key_input(&kh(1), &h(1), &v);
+    let mut script_locked: Vec<u8> = Vec::new();
+    match variant {
+        0 => { ib.add_plutus_script_input(&pw(11), &h(5), &v); ib.add_key_input(&kh(2), &h(5), &v); }
+        1 => { ib.add_key_input(&kh(2), &h(5), &v); ib.add_plutus_script_input(&pw(11), &h(5), &v); script_locked.push(5); }
+        2 => { ib.add_plutus_script_input(&pw(11), &h(5), &v); ib.add_plutus_script_input(&pw(12), &h(9), &v); ib.add_key_input(&kh(2), &h(5), &v); script_locked.push(9); }
+        _ => { ib.add_plutus_script_input(&pw(11), &h(9), &v); ib.add_regular_input(&addr(1, 3), &h(9), &v).map_err(|_| "add failed".to_string())?; ib.add_plutus_script_input(&pw(12), &h(5), &v); script_locked.push(5); }
+    }
+    tb.set_inputs(&ib);
+    tb.set_fee(&bn(2_000_000));
+    let tx = tb.build_tx_unsafe().map_err(|_| format!("{}: build failed", tag))?;
+    let ins = tx.body().inputs();
+    let n_red = tx.witness_set().redeemers().map(|r| r.len()).unwrap_or(0);
+    if n_red != script_locked.len() { return Err(format!("{}: {} spending redeemers for {} script-locked inputs", tag, n_red, script_locked.len())); }
+    if let Some(reds) = tx.witness_set().redeemers() {
+        for i in 0..reds.len() {
+            let idx = u64::from(reds.get(i).index()) as usize;
+            if idx >= ins.len() || !script_locked.contains(&ins.get(idx).transaction_id().to_bytes()[0]) {
+                return Err(format!("{}: spending redeemer points at input {} which is not script-locked", tag, idx));
+            }
+        }
+    }
+    Ok(())
+}
+
 pub fn c10_pointers<S: Src>(_s: &mut S) {
     let mut failures = Vec::new();
+    for v in 0..4u8 { if let Err(e) = c10_readd(v) { failures.push(e); } }
     for v in 0..6u8 { if let Err(e) = c10_scenario(v) { failures.push(e); } }
     let orders: [&[usize]; 12] = [&[1], &[0, 1], &[1, 0], &[2, 1], &[1, 2], &[0, 1, 2], &[2, 1, 0], &[1, 2, 0], &[3, 1], &[1, 3], &[0, 3, 2, 1], &[2, 0, 1, 3]];
     for o in orders.iter() { for sb in [0u8, 1, 2, 3, 4, 5] { if let Err(e) = c10_withdrawals(o, sb) { failures.push(e); } } }
-    assert!(failures.is_empty(), "{} of {} pointer scenarios violate the property; first: {}", failures.len(), 6 + 72, failures[0]);
+    assert!(failures.is_empty(), "{} of {} pointer scenarios violate the property; first: {}", failures.len(), 6 + 72 + 4, failures[0]);
 }
 
 // ---------------------------------------------------------------- C01 / C03: struct-level codecs on crafted inputs
@@ -429,6 +537,44 @@ pub fn c01_battery<S: Src>(_s: &mut S) {
               "a200581d60 00000000000000000000000000000000000000000000000000000000 0100".replace(" ", "").as_str(),
               "82581d60 00000000000000000000000000000000000000000000000000000000 8200a0".replace(" ", "").as_str()] {
         check("TransactionOutput", unhex(h), &out);
+    }
+    // ProtocolParamUpdate: every optional field on its own, adjacent pairs and all together
+    {
+        let ui = UnitInterval::new(&bn(1), &bn(2));
+        let pvt = PoolVotingThresholds::new(&ui, &ui, &ui, &ui, &ui);
+        let dvt = DRepVotingThresholds::new(&ui, &ui, &ui, &ui, &ui, &ui, &ui, &ui, &ui, &ui);
+        let setters: Vec<(&str, Box<dyn Fn(&mut ProtocolParamUpdate)>)> = vec![
+            ("minfee_a", Box::new(|p| p.set_minfee_a(&bn(44)))), ("minfee_b", Box::new(|p| p.set_minfee_b(&bn(155381)))),
+            ("max_block_body_size", Box::new(|p| p.set_max_block_body_size(65536))), ("max_tx_size", Box::new(|p| p.set_max_tx_size(16384))),
+            ("max_block_header_size", Box::new(|p| p.set_max_block_header_size(1100))), ("key_deposit", Box::new(|p| p.set_key_deposit(&bn(2_000_000)))),
+            ("pool_deposit", Box::new(|p| p.set_pool_deposit(&bn(500_000_000)))), ("max_epoch", Box::new(|p| p.set_max_epoch(18))), ("n_opt", Box::new(|p| p.set_n_opt(500))),
+            ("pool_pledge_influence", Box::new({ let u = ui.clone(); move |p| p.set_pool_pledge_influence(&u) })), ("expansion_rate", Box::new({ let u = ui.clone(); move |p| p.set_expansion_rate(&u) })),
+            ("treasury_growth_rate", Box::new({ let u = ui.clone(); move |p| p.set_treasury_growth_rate(&u) })), ("min_pool_cost", Box::new(|p| p.set_min_pool_cost(&bn(340_000_000)))),
+            ("ada_per_utxo_byte", Box::new(|p| p.set_ada_per_utxo_byte(&bn(4310)))), ("execution_costs", Box::new({ let u = ui.clone(); move |p| p.set_execution_costs(&ExUnitPrices::new(&u, &u)) })),
+            ("max_tx_ex_units", Box::new(|p| p.set_max_tx_ex_units(&ExUnits::new(&bn(1), &bn(2))))), ("max_block_ex_units", Box::new(|p| p.set_max_block_ex_units(&ExUnits::new(&bn(3), &bn(4))))),
+            ("max_value_size", Box::new(|p| p.set_max_value_size(5000))), ("collateral_percentage", Box::new(|p| p.set_collateral_percentage(150))),
+            ("max_collateral_inputs", Box::new(|p| p.set_max_collateral_inputs(3))), ("pool_voting_thresholds", Box::new({ let v = pvt.clone(); move |p| p.set_pool_voting_thresholds(&v) })),
+            ("drep_voting_thresholds", Box::new({ let v = dvt.clone(); move |p| p.set_drep_voting_thresholds(&v) })), ("min_committee_size", Box::new(|p| p.set_min_committee_size(7))),
+            ("committee_term_limit", Box::new(|p| p.set_committee_term_limit(146))), ("governance_action_validity_period", Box::new(|p| p.set_governance_action_validity_period(6))),
+            ("governance_action_deposit", Box::new(|p| p.set_governance_action_deposit(&bn(100_000_000_000)))), ("drep_deposit", Box::new(|p| p.set_drep_deposit(&bn(500_000_000)))),
+            ("drep_inactivity_period", Box::new(|p| p.set_drep_inactivity_period(20))), ("ref_script_coins_per_byte", Box::new({ let u = ui.clone(); move |p| p.set_ref_script_coins_per_byte(&u) })),
+        ];
+        let n = setters.len();
+        let mut combos: Vec<Vec<usize>> = (0..n).map(|i| vec![i]).collect();
+        combos.extend((0..n - 1).map(|i| vec![i, i + 1]));
+        combos.push((0..n).collect());
+        combos.push(vec![]);
+        for c in &combos {
+            let mut p = ProtocolParamUpdate::new();
+            for &i in c { (setters[i].1)(&mut p); }
+            let what = format!("ProtocolParamUpdate with {:?}", c.iter().map(|&i| setters[i].0).collect::<Vec<_>>());
+            let b = p.to_bytes();
+            if crate::wellformed::item_end(&b, 0, 12) != Some(b.len()) { failures.borrow_mut().push(format!("{}: encoding is malformed CBOR: {:02x?}", what, b)); continue; }
+            match ProtocolParamUpdate::from_bytes(b.clone()) {
+                Ok(q) => if q.to_bytes() != b { failures.borrow_mut().push(format!("{}: decode then encode changes the bytes", what)); },
+                Err(_) => failures.borrow_mut().push(format!("{}: own encoding does not decode", what)),
+            }
+        }
     }
     let failures = failures.into_inner();
     assert!(failures.is_empty(), "{} struct-level codec scenarios violate the round-trip / well-formedness property; first: {}", failures.len(), failures[0]);
@@ -574,4 +720,68 @@ pub fn c13_send_all<S: Src>(_s: &mut S) {
     }
     assert!(successes > 20, "send-all battery: too few successful builds ({}) to mean anything", successes);
     assert!(failures.is_empty(), "{} send-all checks fail over {} successful builds; first: {}", failures.len(), successes, failures[0]);
+}
+
+// ---------------------------------------------------------------- C16: set-typed collections (API-level confirmation)
+macro_rules! set_battery {
+    ($failures:ident, $ty:ident, $mk:expr) => {{
+        let elems: Vec<_> = (0..3u8).map($mk).collect();
+        // every insertion sequence of length <= 4 over three elements
+        let mut seqs: Vec<Vec<usize>> = vec![vec![]];
+        for len in 1..=4usize { let base: Vec<Vec<usize>> = seqs.iter().filter(|s| s.len() == len - 1).cloned().collect(); for s in base { for e in 0..3usize { let mut t = s.clone(); t.push(e); seqs.push(t); } } }
+        for seq in &seqs {
+            let mut c = $ty::new();
+            let mut expect: Vec<usize> = Vec::new();
+            for &e in seq {
+                let fresh = !expect.contains(&e);
+                let r = c.add(&elems[e]);
+                if r != fresh { $failures.push(format!("{}::add returned {} for an element that was {}", stringify!($ty), r, if fresh { "absent" } else { "present" })); }
+                if fresh { expect.push(e); }
+            }
+            let want: Vec<Vec<u8>> = expect.iter().map(|&e| elems[e].to_bytes()).collect();
+            let got: Vec<Vec<u8>> = (0..c.len()).map(|i| c.get(i).to_bytes()).collect();
+            if got != want { $failures.push(format!("{} after insertion sequence {:?}: holds {} elements, expected the first occurrences {:?}", stringify!($ty), seq, got.len(), expect)); continue; }
+            // the encoding lists every element once, in that order, and decodes back to the same collection
+            let bytes = c.to_bytes();
+            match $ty::from_bytes(bytes.clone()) {
+                Ok(d) => { let back: Vec<Vec<u8>> = (0..d.len()).map(|i| d.get(i).to_bytes()).collect(); if back != want { $failures.push(format!("{} {:?}: encoding does not decode to the same elements", stringify!($ty), seq)); } }
+                Err(_) => $failures.push(format!("{} {:?}: own encoding does not decode", stringify!($ty), seq)),
+            }
+            // bytes that repeat elements (untagged array, tagged, indefinite): decoded collection is duplicate-free, first-occurrence order
+            for form in 0..3u8 {
+                let mut raw: Vec<u8> = Vec::new();
+                if form == 1 { raw.extend([0xd9, 0x01, 0x02]); }
+                if form == 2 { raw.push(0x9f); } else { raw.push(0x80 + seq.len() as u8); }
+                for &e in seq { raw.extend(wire(&elems[e].to_bytes())); }
+                if form == 2 { raw.push(0xff); }
+                match $ty::from_bytes(raw) {
+                    Ok(d) => {
+                        let back: Vec<Vec<u8>> = (0..d.len()).map(|i| d.get(i).to_bytes()).collect();
+                        if back != want { $failures.push(format!("{} decoded from bytes repeating elements {:?} (form {}): holds {} elements, expected first occurrences {:?}", stringify!($ty), seq, form, back.len(), expect)); }
+                        let again = d.to_bytes();
+                        let n_items = match $ty::from_bytes(again) { Ok(x) => x.len(), Err(_) => usize::MAX };
+                        if n_items != want.len() { $failures.push(format!("{} {:?}: re-encoding of a decoded collection lists {} elements", stringify!($ty), seq, n_items)); }
+                    }
+                    Err(_) => $failures.push(format!("{} {:?}: well-formed array (form {}) does not decode", stringify!($ty), seq, form)),
+                }
+            }
+        }
+    }};
+}
+
+/// element bytes as they appear inside a collection: hash types print their raw 28 bytes without a CBOR head
+fn wire(b: &[u8]) -> Vec<u8> { if b.len() == 28 && crate::wellformed::item_end(b, 0, 4) != Some(28) { let mut v = vec![0x58u8, 0x1c]; v.extend(b); v } else { b.to_vec() } }
+
+pub fn c16_sets<S: Src>(_s: &mut S) {
+    let mut failures: Vec<String> = Vec::new();
+    set_battery!(failures, Ed25519KeyHashes, |b| kh(b + 1));
+    set_battery!(failures, Credentials, |b| if b == 2 { Credential::from_scripthash(&ScriptHash::from([1u8; 28])) } else { kc(b + 1) });
+    set_battery!(failures, TransactionInputs, |b| TransactionInput::new(&TransactionHash::from([7u8; 32]), b as u32));
+    set_battery!(failures, Certificates, |b| Certificate::new_stake_registration(&StakeRegistration::new(&kc(b + 1))));
+    set_battery!(failures, VotingProposals, |b| VotingProposal::new(&GovernanceAction::new_info_action(&InfoAction::new()),
+        &Anchor::new(&URL::new("https://x.y".to_string()).unwrap(), &AnchorDataHash::from([b; 32])), &RewardAddress::new(0, &kc(9)), &bn(5)));
+    set_battery!(failures, Vkeywitnesses, |b| Vkeywitness::new(&Vkey::new(&pubkey(b)), &sig()));
+    set_battery!(failures, BootstrapWitnesses, |b| BootstrapWitness::new(&Vkey::new(&pubkey(b)), &sig(), vec![3u8; 32], vec![0xa0]));
+    for f in failures.iter().take(10) { eprintln!("C16-SETS {}", f); }
+    assert!(failures.is_empty(), "{} set-collection scenarios violate the property; first: {}", failures.len(), failures[0]);
 }
